@@ -5,7 +5,8 @@
 #     pass/fail exactly the same tests as an untouched copy.
 #  2. Rewriting is deterministic, and refuses an already rewritten tree.
 #  3. testdata/synth (constructs the repo does not contain) must pass its own
-#     tests and a full `go vet` after rewriting.
+#     tests and a full `go vet` after rewriting; with -access its package-level
+#     variables must get "<pkgvar>" probes (writes for scratch/buf/...).
 #  4. Rule D: unmodelled synchronisation makes the tool exit 2.
 set -u
 export GOFLAGS=-mod=mod GOPROXY=off GOSUMDB=off GOTOOLCHAIN=local
@@ -62,6 +63,16 @@ for mode in plain access; do
 	if "$SR" -dir "$d" -simrt "$STUB" $flag -sites "$WORK/synth-$mode.json"; then ok "rewrite"; else bad "rewrite exit $?"; continue; fi
 	(cd "$d" && go vet ./... && go test -count=1 ./... >"$WORK/synth.out" 2>&1) && ok "go vet ./... && go test ./..." || { bad "fixture"; cat "$WORK/synth.out"; }
 	grep -q '"uncontrolled_map_ranges": \[' "$WORK/synth-$mode.json" && [ "$(grep -c '"reason": "\(key type\|label is\)' "$WORK/synth-$mode.json")" = 2 ] && ok "struct-key and goto-label ranges reported uncontrolled" || bad "uncontrolled ranges"
+	if [ $mode = access ]; then # package-level variables: probed whatever -access-types says
+		flat=$(tr -d ' \n' <"$WORK/synth-$mode.json")
+		for v in scratch buf limits defaults other.Counter; do
+			case $flat in *"\"detail\":\"$v\",\"type\":\"<pkgvar>\",\"write\":true"*) ok "write probe for package-level var $v" ;; *) bad "no write probe for package-level var $v" ;; esac
+		done
+		case $flat in *'"detail":"registry","type":"<pkgvar>","write":false'*) ok "read probe for package-level var registry" ;; *) bad "no read probe for registry" ;; esac
+		for v in errSentinel wordRE guardMu; do
+			case $flat in *"\"detail\":\"$v\",\"type\":\"<pkgvar>\""*) bad "package-level var $v must not be probed" ;; *) ok "no probe for package-level var $v" ;; esac
+		done
+	fi
 done
 
 echo "== rule D: unmodelled synchronisation is refused"
